@@ -5,6 +5,8 @@ package oracle
 import (
 	"fmt"
 
+	abci "github.com/cometbft/cometbft/abci/types"
+
 	"verif/harness/world"
 )
 
@@ -84,3 +86,5 @@ func (s *Survival) After(w *world.World, a *world.Action, r *world.StepResult) *
 }
 func (s *Survival) NonTrivial(*world.World) bool { return true }
 func (s *Survival) Checks() int                  { return s.n }
+
+type abciEvent = abci.Event
